@@ -83,9 +83,16 @@ type OrLabelMatcher struct {
 
 // Process implements Processor.
 func (m *OrLabelMatcher) Process(ts otelstorage.Timestamp, line string, set LabelSet) (_ string, keep bool) {
+	_, hadErr := set.GetError()
 	// Do not overwrite the line: left matcher may return an empty one, if it does not match.
 	if newLine, keep := m.Left.Process(ts, line, set); keep {
 		return newLine, keep
+	}
+	if !hadErr {
+		// Left matcher rejected the record, forget the error it might have set:
+		// result of "a or b" must not depend on the order of operands.
+		set.Delete(logql.ErrorLabel)
+		set.Delete(logql.ErrorDetailsLabel)
 	}
 	return m.Right.Process(ts, line, set)
 }
